@@ -48,6 +48,52 @@ Section T.
         * apply Rltb_false in E1, E2. inversion H; subst. split; assumption.
   Qed.
 
+  (* pitch_trim_using_orientation: the same post-condition ... *)
+  Notation oloop := (orient_trim_loop fcos fsin F solve2).
+  Theorem orient_trim_post fuel : forall s ic phi theta psi flap R CLd Cmd relax tol v0 w0 p0 th fl sf,
+    R = trim_res F s CLd Cmd -> oloop fuel s ic phi theta psi flap R CLd Cmd relax tol v0 w0 p0 = Some (th, fl, sf) ->
+    Rabs (nth 0 (F sf) 0 - CLd) <= tol /\ Rabs (nth 2 (F sf) 0 - Cmd) <= tol.
+  Proof.
+    induction fuel as [|f IH]; intros s ic phi theta psi flap R CLd Cmd relax tol v0 w0 p0 th fl sf Hinv H; cbn [orient_trim_loop] in H.
+    - unfold big in H. change (nltb tol (nabs (fst R))) with (Rltb tol (Rabs (fst R))) in H.
+      change (nltb tol (nabs (snd R))) with (Rltb tol (Rabs (snd R))) in H.
+      destruct (Rltb tol (Rabs (fst R))) eqn:E1; [discriminate|]. destruct (Rltb tol (Rabs (snd R))) eqn:E2; [discriminate|].
+      apply Rltb_false in E1, E2. cbn in H. inversion H; subst. split; assumption.
+    - unfold big in H. change (nltb tol (nabs (fst R))) with (Rltb tol (Rabs (fst R))) in H.
+      change (nltb tol (nabs (snd R))) with (Rltb tol (Rabs (snd R))) in H.
+      destruct (Rltb tol (Rabs (fst R))) eqn:E1; cbn [orb] in H.
+      + destruct (solve2 _ _ _ _ _ _) as [d0 d1]. destruct f as [|f']; [discriminate|]. eapply IH; [|exact H]. reflexivity.
+      + destruct (Rltb tol (Rabs (snd R))) eqn:E2.
+        * destruct (solve2 _ _ _ _ _ _) as [d0 d1]. destruct f as [|f']; [discriminate|]. eapply IH; [|exact H]. reflexivity.
+        * apply Rltb_false in E1, E2. inversion H; subst. split; assumption.
+  Qed.
+
+  (* ... and what it changes: the returned state is the one it was given (already trimmed) or has the attitude of the unchanged bank and
+     heading with the returned elevation, the rates and the position recorded before the loop, the recorded Earth-fixed velocity handed
+     back through the new attitude, and the controls of the state it was given except the chosen one *)
+  Lemma nth_set_nth_other (l : list R) i j x : i <> j -> nth j (set_nth l i x) 0 = nth j l 0.
+  Proof.
+    revert i j; induction l as [|a l IH]; intros i j Hij; [destruct i; reflexivity|].
+    destruct i as [|i]; destruct j as [|j]; cbn [set_nth nth]; try reflexivity; [congruence|]. apply IH. congruence.
+  Qed.
+  Theorem orient_trim_frame fuel : forall s ic phi theta psi flap R CLd Cmd relax tol v0 w0 p0 th fl sf,
+    oloop fuel s ic phi theta psi flap R CLd Cmd relax tol v0 w0 p0 = Some (th, fl, sf) ->
+    (sf = s /\ th = theta /\ fl = flap) \/
+    (s_q sf = euler_to_quat fcos fsin phi th psi /\ s_w sf = w0 /\ s_p sf = p0 /\
+     s_v sf = quat_inv_trans (s_q sf) (quat_trans (s_q sf) v0) /\
+     forall j, j <> ic -> nth j (s_c sf) 0 = nth j (s_c s) 0).
+  Proof.
+    induction fuel as [|f IH]; intros s ic phi theta psi flap R CLd Cmd relax tol v0 w0 p0 th fl sf H; cbn [orient_trim_loop] in H.
+    - destruct (big tol R); [discriminate|]. inversion H; subst. left. repeat split.
+    - destruct (big tol R); [|inversion H; subst; left; repeat split].
+      destruct (solve2 _ _ _ _ _ _) as [d0 d1]. destruct f as [|f']; [discriminate|].
+      apply IH in H. right. destruct H as [[Hs [Ht Hf]]|[Hq [Hw [Hp [Hv Hc]]]]].
+      + subst. cbn [s_q s_w s_p s_v s_c set_c with_attitude]. repeat split.
+        intros j Hj. rewrite !nth_set_nth_other by congruence. reflexivity.
+      + repeat split; try assumption. intros j Hj. rewrite (Hc j Hj). cbn [s_c set_c with_attitude].
+        rewrite !nth_set_nth_other by congruence. reflexivity.
+  Qed.
+
   (* the iteration cap: with fuel = max_iterations the loops never return after max_iterations updates *)
   Theorem target_CL_cap : forall s alpha CL target relax tol, tol < Rabs (CL - target) ->
     tloop 1 s alpha CL target relax tol = None.
